@@ -2,7 +2,8 @@ import PyxModel.Sexp
 import PyxModel.Sql.Wire
 
 /-! driver for `(c12 (uc …) "text" …)`: a sequence of `input` calls on one loader, then a build.
-    answer: `((accepted|parsing …) (stmt …) build-outcome)` -/
+    answer: `((accepted|parsing …) (stmt …) build-outcome (reals (text neg micro) …))`; the last part lists what
+    `float()` reads from every INSERT value that has the form of a number (in statement order, duplicates kept) -/
 namespace Pyx.Driver.C12
 open Pyx Pyx.Sexp Pyx.Sql Pyx.Sql.Wire
 
@@ -10,7 +11,14 @@ def run (u : UC) (texts : List Text) : Sexp :=
   let (l, outs) := texts.foldl (fun (acc : Loader × List Sexp) t =>
     let (l', o) := acc.1.input u t
     (l', (match o with | .accepted => sym "accepted" | .parsing => sym "parsing") :: acc.2)) (Loader.fresh, [])
-  list [list outs.reverse, list (l.statements.map stmtSexp), outcomeSexp (l.build u)]
+  let reals : List Sexp := l.statements.flatMap fun st =>
+    match st with
+    | .insert _ vals _ => vals.filterMap fun v =>
+        match parseReal u v with
+        | some (.real neg micro) => some (list [txt v, sym (if neg then "T" else "F"), ofNat micro])
+        | _ => none
+    | _ => []
+  list [list outs.reverse, list (l.statements.map stmtSexp), outcomeSexp (l.build u), list (sym "reals" :: reals)]
 
 def handle : List Sexp → Option Sexp
   | sym "c12" :: list (sym "uc" :: rows) :: texts => some (run (ucOf rows) (asTexts texts))
